@@ -19,5 +19,5 @@ Definition err_name_b (e : err) : list byte := list_byte_of_string (err_go_name 
 Definition pool_get (st : fstate) (t : thr) : option (positive * pc) := f_pool st !! t.
 Definition mk_finit (l : list (thr * (positive * pc))) : fstate := finit (list_to_map l).
 
-Extraction "restmodel.ml" fstep mk_finit pool_get sess final_pc rreplay_history replay_history c20_failures_b c20_inert_failures_b rhas_tie_b
+Extraction "restmodel.ml" fstep mk_finit pool_get sess final_pc mreplay_history rreplay_history replay_history c20_failures_b c20_inert_failures_b rhas_tie_b
   byte_to_N byte_of_N err_name_b all_errs proj_all Proj Config.
